@@ -80,6 +80,10 @@ def cases(rng, tier):
     for _ in range({"quick": 10, "thorough": 120, "search": 80}[tier]):
         out.append({"t": "hist", "oidc": rng.random() < 0.6, "jwt": rng.random() < 0.3, "usage": "c1rules", "gen_seed": rng.getrandbits(48),
                     "n": rng.randint(10, 24 if tier == "quick" else 40)})
+    # the library's default layout: no usage rule for refresh tokens (handler lifetime, class defaults), grants without a lifetime
+    for _ in range({"quick": 8, "thorough": 100, "search": 60}[tier]):
+        out.append({"t": "hist", "oidc": rng.random() < 0.6, "jwt": rng.random() < 0.3, "usage": rng.choice(["norefrule", "norefrule", "nogrant"]),
+                    "gen_seed": rng.getrandbits(48), "n": rng.randint(10, 24 if tier == "quick" else 40)})
     for _ in range({"quick": 10, "thorough": 120, "search": 80}[tier]):
         out.append({"t": "xchain", "oidc": rng.random() < 0.6, "jwt": False, "usage": "exchange", "seed": rng.getrandbits(32)})
     for i in range(n // 2):
@@ -199,7 +203,7 @@ def _ops_for(c):
         return _session_ops(c)
     import random
     ops, _ = prov.gen_adaptive(random.Random(c["gen_seed"]), c["n"], oidc=c["oidc"], jwt=c["jwt"], usage=c.get("usage"),
-                               weights=XW if c.get("usage") == "exchange" else dict(tick=14, refresh=16, redeem=22) if c.get("usage") == "c1rules" else None)
+                               weights=XW if c.get("usage") == "exchange" else dict(tick=14, refresh=16, redeem=22) if c.get("usage") in ("c1rules", "norefrule", "nogrant") else None)
     return ops
 
 
